@@ -42,7 +42,7 @@ IDIOM = {("blob_inner", "replace", "BlobIdAlreadyUploaded"):
 def guard_variants(f):
     out = {}
     for i, j, p, rv, line in assignments(f):
-        if rv[0] == "agg" and rv[1] == "fuel_tx::PanicReason" and rv[2] in GUARDS:
+        if rv[0] == "agg" and rv[1].endswith("::PanicReason") and rv[2] in GUARDS:
             out.setdefault(i, set()).add(rv[2])
     return out
 
